@@ -74,8 +74,12 @@ def impl_auto(prev, payloads):
             out.append("EXC " + exc_name(ex))
             break
         idx = getattr(a, "_AutoDecoder__previous_success")
-        name = a.previous_success_decoder
-        want_name = None if idx is None else AutoDecoder.payload_decoder_functions[idx][0]
+        try:
+            name = a.previous_success_decoder
+            want_name = None if idx is None else AutoDecoder.payload_decoder_functions[idx][0]
+        except Exception as ex:  # noqa
+            out.append("EXC previous_success_decoder-" + exc_name(ex))
+            break
         if name != want_name:
             out.append("EXC previous_success_decoder-mismatch")
             break
